@@ -35,9 +35,13 @@ import (
 	"github.com/codenotary/immudb/embedded/sql"
 	"github.com/codenotary/immudb/embedded/store"
 	"github.com/codenotary/immudb/embedded/tbtree"
+	"github.com/codenotary/immudb/pkg/api/protomodel"
 	"github.com/codenotary/immudb/pkg/api/schema"
 	fm "github.com/codenotary/immudb/pkg/pgsql/server/fmessages"
 	"github.com/codenotary/immudb/pkg/stream"
+	"github.com/codenotary/immudb/pkg/verification"
+	"google.golang.org/protobuf/proto"
+	"google.golang.org/protobuf/types/known/structpb"
 
 	"verif/harness/internal/hx"
 )
@@ -1008,6 +1012,8 @@ func runC16(r *hx.Result, rng *hx.Rng, thorough bool, replay string) error {
 	phase("stream")
 	c16SearchSingleapp(c, rng.Fork(), scale)
 	phase("singleapp")
+	c16SearchVerifyDocument(c, rng.Fork(), scale)
+	phase("verifydocument")
 
 	r.Sample(map[string]interface{}{"decoder": "txmd", "input": "010005", "impl": c.decOut("txmd", []byte{1, 0, 5}), "model": "err:corruptedData (theorem txMetadata_readFrom_rejects_overrun; panic without the guard: txMetadata_readFrom_guard_needed)"})
 	r.Sample(map[string]interface{}{"decoder": "txmd", "input": "0000000000000000090100020708", "impl": c.decOut("txmd", []byte{0, 0, 0, 0, 0, 0, 0, 0, 9, 1, 0, 2, 7, 8})})
@@ -1017,7 +1023,7 @@ func runC16(r *hx.Result, rng *hx.Rng, thorough bool, replay string) error {
 		r.Sample(map[string]interface{}{"decoder": "ReplicateTx", "valid_exported_tx_1": hx.Hex(prim1.exported[0])})
 	}
 	r.Extra["slow_calls_not_counted_as_hang"] = fmt.Sprint(c16SlowCalls)
-	r.Extra["search_only"] = "sql.ParseSQLString, pgsql fmessages.Parse*Msg, pkg/stream (ReadValue, msgReceiver, ParseVerifiableEntry), singleapp.Open header: no Lean model, panic/hang/alloc oracle only"
+	r.Extra["search_only"] = "sql.ParseSQLString, pgsql fmessages.Parse*Msg, pkg/stream (ReadValue, msgReceiver, ParseVerifiableEntry), singleapp.Open header, verification.VerifyDocument(EncodedDocument): no Lean model, panic/hang/alloc oracle only"
 	return nil
 }
 
@@ -1900,3 +1906,88 @@ func c16Unhex(s string) ([]byte, error) {
 
 var _ = sha256.Size
 var _ = reflect.TypeOf
+
+// ---------- search-only: pkg/verification.VerifyDocument on an encoded row chosen by the sender of the proof ----------
+
+// The proof is coherent up to the point where the encoded row is used: the entry with the document key carries
+// sha256(EncodedDocument) and the header the entries digest (the sender controls all of them), so the two slice
+// expressions `EncodedDocument[voff:]`, sql.DecodeValue and proto.Unmarshal see the raw bytes.  (The unchecked slices
+// panicked on a short row: C19 finding `C19:proof:panic:encoded-row-cut+hvalue+eh`, repaired in /repo.)
+func c16SearchVerifyDocument(c *c16Run, rng *hx.Rng, scale int) {
+	r := c.r
+	const docID = "000102030405060708090a0b0c0d0e0f"
+	const collID = 7
+	key, err := c19EncDocKey(collID, docID)
+	if err != nil {
+		r.Notes = append(r.Notes, "VerifyDocument search: document key: "+err.Error())
+		return
+	}
+	doc, err := structpb.NewStruct(map[string]interface{}{"_id": docID, "n": 1.0, "s": "x"})
+	if err != nil {
+		return
+	}
+	payload, err := proto.Marshal(doc)
+	if err != nil {
+		return
+	}
+	idb := make([]byte, 16)
+	for i := range idb {
+		idb[i] = byte(i)
+	}
+	// row = column count, then per column: id, length, value
+	var valid []byte
+	valid = binary.BigEndian.AppendUint32(valid, 2)
+	valid = binary.BigEndian.AppendUint32(valid, 1)
+	valid = binary.BigEndian.AppendUint32(valid, uint32(len(idb)))
+	valid = append(valid, idb...)
+	valid = binary.BigEndian.AppendUint32(valid, 2)
+	valid = binary.BigEndian.AppendUint32(valid, uint32(len(payload)))
+	valid = append(valid, payload...)
+	fields := []c16Field{{0, 4}, {4, 4}, {8, 4}, {12 + len(idb), 4}, {16 + len(idb), 4}}
+	inputs := c16Mutations(rng, valid, fields, 0, 80*scale)
+	inputs = append(inputs, c16RandomInputs(rng, 60*scale, 48)...)
+	for _, in := range inputs {
+		k := c16Key("vdoc", in.b)
+		if c.seen[k] {
+			continue
+		}
+		c.seen[k] = true
+		b := in.b
+		res := c16Guard(c.timeout, func() string {
+			hv := sha256.Sum256(b)
+			hdr := &schema.TxHeader{Id: 1, PrevAlh: make([]byte, 32), Ts: 1, Version: 1, Nentries: 1, EH: make([]byte, 32), BlRoot: make([]byte, 32)}
+			p := &protomodel.ProofDocumentResponse{
+				Database: "db", CollectionId: collID, DocumentIdFieldName: "_id", EncodedDocument: b,
+				VerifiableTx: &schema.VerifiableTxV2{
+					Tx:        &schema.Tx{Header: hdr, Entries: []*schema.TxEntry{{Key: key, HValue: hv[:], VLen: int32(len(b))}}},
+					DualProof: &schema.DualProofV2{SourceTxHeader: hdr, TargetTxHeader: hdr},
+				},
+			}
+			if root, ok := c19EntriesRoot(p.VerifiableTx.Tx); ok {
+				hdr.EH = root[:]
+			}
+			_, err := verification.VerifyDocument(context.Background(), p, doc, nil, nil)
+			if err != nil {
+				if errors.Is(err, store.ErrInvalidProof) {
+					return "err:invalid-proof"
+				}
+				return "err"
+			}
+			return "ok"
+		})
+		r.Count("search-only.VerifyDocument.in." + in.label)
+		r.Count("search-only.VerifyDocument.out." + res.out)
+		r.OracleChecks++
+		r.Eval(k, len(in.b) > 0)
+		if res.hung {
+			r.Fail("C16:verification.VerifyDocument:hang", "VerifyDocument did not return", map[string]string{"encoded_document": hx.Hex(in.b)})
+		}
+		if res.panicked {
+			r.Fail("C16:"+res.site, "verification.VerifyDocument panics on the encoded row of the proof ("+res.pval+")", map[string]string{"decoder": "verification.VerifyDocument", "encoded_document": hx.Hex(in.b), "panic": res.pval})
+		}
+		if res.alloc > c16AllocBound(len(in.b)) {
+			r.Fail("C16:verification.VerifyDocument:alloc-exceeds-bound", fmt.Sprintf("allocated %d bytes for %d input bytes", res.alloc, len(in.b)), map[string]string{"encoded_document": hx.Hex(in.b), "allocated": fmt.Sprint(res.alloc)})
+		}
+	}
+}
+
